@@ -52,6 +52,11 @@ CLAIMED = {
     text='Totality: every panic obligation below tail(any u32) and aircraft_information(any &str, ..) is discharged, the data-dependent ones by rules evaluated on patterns.json of the current tree (0x-prefixed hex bounds, compilable category patterns, file deserialises into Patterns). Country: every address range in which a mapping can answer (stride/numeric rows from their evaluated constructor values; N, JA, HL by abstract runs over every address block) is assigned by patterns.json (first match, as the lookup does) to a block whose pattern admits the prefix. Aliasing: address ranges of the mappings are pairwise disjoint, prefixes do not shadow one another, same-prefix stride rows give disjoint letter triples; stride/numeric/HL are one-to-one inside a row by the shape of their computation (mixed-radix decomposition of a slope-1 offset, distinct alphabet letters, zero padding wide enough, disjoint HL ranges); every numeral position of the N and JA systems prints a single digit.',
     note='Static rule check. Not decided: full injectivity inside the N-number and JA numeral systems (only the single-digit necessary condition). Trusted: MIR, abstract interpreter, library contracts (Lazy, vec!, chars/position/nth over constants, String), python re on the block patterns of patterns.json.',
     ref='DESIGN.md §7 C14'),
+ 'C15': dict(level='other', engine='absint',
+    technique='abstract interpretation of MIR (intervals with NaN flag under IEEE round-to-nearest, known multiples for shifts, exact evaluation of the XXTEA round counter, element-wise evaluation of the small iterator pipelines), path fact at the reader call',
+    text='Totality: every panic obligation below Flarm::from_record(any u32, any [f64; 2] including NaN and infinities, any byte string) is discharged (indices into the 5 decrypted words and the 4 key words, 32-bit position arithmetic, shifts, casts), no recursion, both XXTEA loops finish within a fixed number of iterations for every input. Finiteness: every float field of every Ok record is finite; the two reference fields are byte copies of the argument, which is shown finite on every path reaching the reader. Track: 0 <= track < 360 in every Ok record. No clock / environment / randomness below the entry.',
+    note='Static rule check. Not decided: that a packet built and encrypted by an independent implementation decodes to the same fields (round trip); key-table selection and position reconstruction are only covered for totality/finiteness. Trusted: MIR, abstract interpreter, contracts for deku primitive reads, Vec, iterator adaptors, libm atan2/sqrt, f64::rem_euclid (closed upper bound).',
+    ref='DESIGN.md §7 C15'),
  'C16': dict(level='proof', engine='absint',
     technique='abstract interpretation of MIR with url/regex/serde-data contracts evaluated on the literals and data files; effect closure; format-template comparison',
     text='Every panic obligation below <Source as FromStr>::from_str and <Position as FromStr>::from_str is discharged for an arbitrary &str; constant-argument calls (Url::parse literal, Regex::new literals, the airports table parsed behind Lazy) are re-validated on the current literal / data file; Source::serial reaches no clock/random/env effect (DefaultHasher has fixed keys), formats the table form from exactly (address, port), with the same template as the string form.',
